@@ -260,6 +260,12 @@ class SAMIReader(BaseReader):
             if not result:
                 return
             tag_text = result.groups()[0]
+            # Text wrapped over several source lines keeps all of its words:
+            # every further line is appended, its line break and indentation
+            # counting as one space
+            for line in re.split("[\n\r]+", tag[result.end():]):
+                if line.strip():
+                    tag_text += ' ' + line.lstrip()
             self.line.append(CaptionNode.create_text(tag_text, inherit_from))
         # convert line breaks
         elif tag.name == 'br':
